@@ -2242,6 +2242,25 @@ fn c04(cases: &mut u64) -> Option<String> {
             }
         }
     }
+    // more distinct tokens than a 16-bit id can number (the builder maps tokens to integer ids above 100 tokens)
+    {
+        let ot: String = (0..70_000u32).map(|i| format!("L{}\n", i)).collect();
+        let nt: String = (0..70_000u32).map(|i| if i == 35_000 { "changed\nadded\n".to_string() } else { format!("L{}\n", i) }).collect();
+        for &alg in &ALGS {
+            *cases += 1;
+            let ctx = format!("C04 line diff of 70000 distinct lines (line 35000 replaced by two lines) alg={:?}", alg);
+            let r = guard(|| {
+                let mut cfg = TextDiff::configure();
+                cfg.algorithm(alg);
+                let d = cfg.diff_lines(&ot[..], &nt[..]);
+                d.iter_all_changes().map(|c| (c.tag(), c.old_index(), c.new_index(), c.value().to_string())).collect::<Vec<TextFlat>>()
+            });
+            match r {
+                Err(p) => return Some(format!("{}: {}", ctx, p)),
+                Ok(ch) => if let Err(e) = c04_changes(&ctx, &ot, &nt, &ch) { return Some(e.chars().take(600).collect()); },
+            }
+        }
+    }
     None
 }
 
@@ -2269,7 +2288,7 @@ fn main() {
         "C12" => (c12(&mut cases), "alternating exact op lists up to 8 ops, equal lens {1,2,3,5,8}, 6 change shapes, n 0..=3"),
         "C13" => (c13(&mut cases), "synthetic ops + captured ops for alphabet {0,1,2} len 0..=5 + TextDiff chars"),
         "C05" => (c05(&mut cases), "lines {a,b,c}, 0..=4 lines, optional missing final newline, radius 0..=2"),
-        "C04" | "C17" => (c04(&mut cases), "texts over {a,b,space,newline} len 0..=4, lines/words/chars, iter_all_changes + remapper + utils helpers; 15 line diffs of 101..260 lines (reconstruction through the integer-mapping path)"),
+        "C04" | "C17" => (c04(&mut cases), "texts over {a,b,space,newline} len 0..=4, lines/words/chars, iter_all_changes + remapper + utils helpers; 15 line diffs of 101..260 lines and one of 70000 distinct lines (reconstruction through the integer-mapping path)"),
         _ => {
             eprintln!("usage: replay <C01|C02|C03|C04|C05|C07|C08|C09|C10|C11|C12|C13|C17>");
             std::process::exit(2);
